@@ -224,9 +224,18 @@ impl Launcher {
         ChildOut { exit, events, stdout, stderr }
     }
 
-    /// The real `any` binary.
-    pub fn any(&self, xdg: &Paths, work: &Path, args: &[String], extra_env: &[(String, String)]) -> ChildOut {
-        let mut cmd = self.command("any", xdg, work, 1, 0);
+    /// The real `any` binary; with `inject` = (system call, occurrence, errno) it runs under the ptrace
+    /// injector, which makes that one call fail with that errno.
+    pub fn any(&self, xdg: &Paths, work: &Path, args: &[String], extra_env: &[(String, String)], inject: Option<&(String, usize, String)>) -> ChildOut {
+        let strace_out = work.join("any.strace");
+        let mut cmd = match inject {
+            None => self.command("any", xdg, work, 1, 0),
+            Some((call, when, errno)) => {
+                let mut c = self.command_path(Path::new("/usr/bin/strace"), xdg, work, 1, 0);
+                c.arg("--seccomp-bpf").arg("-f").arg("-qq").arg("-o").arg(&strace_out).arg("-e").arg(format!("trace={call}")).arg("-e").arg(format!("inject={call}:error={errno}:when={when}")).arg(self.bin_dir.join("any"));
+                c
+            }
+        };
         cmd.args(args);
         for (k, v) in extra_env {
             cmd.env(k, v);
@@ -236,6 +245,14 @@ impl Launcher {
             Err(e) => return ChildOut { exit: Exit::SpawnFailed { why: e.to_string() }, events: vec![], stdout: String::new(), stderr: String::new() },
         };
         let (exit, stdout, stderr) = self.wait(child);
-        ChildOut { exit, events: vec![], stdout, stderr }
+        let mut events = vec![];
+        if let Some((call, when, errno)) = inject {
+            let text = std::fs::read_to_string(&strace_out).unwrap_or_default();
+            let _ = std::fs::remove_file(&strace_out);
+            if text.contains("(INJECTED)") {
+                events.push(Event::FaultFired { kind: "sys-error(cli)".into(), point: format!("{call}:{errno}"), k: *when });
+            }
+        }
+        ChildOut { exit, events, stdout, stderr }
     }
 }
